@@ -13,6 +13,8 @@ UID = 65534
 FMT_FILE = {"cdx": "cdx.json", "spdx": "spdx.json", "syft": "syft.json"}
 EXPECTED_PLAN = {"provides": [{"name": "verif"}], "requires": [{"name": "verif", "metadata": {}}],
                  "or": [{"provides": [{"name": "alt"}]}]}
+EXPECTED_PLANS = {"pass_plan_or": {"or": [{"provides": [{"name": "node"}], "requires": [{"name": "node", "metadata": {}}]}]},
+                  "pass_plan_empty": {}}   # empty lists are omitted by the writer
 EXPECTED_LAUNCH = {"processes": [{"type": "web", "command": ["run"], "default": True}]}
 EXPECTED_STORE = {"metadata": {"k": "new"}}
 DESC = {
@@ -140,7 +142,12 @@ def run_one(cfg, root):
         return os.path.getsize(q) if os.path.exists(q) else 0
     o = {"exit": p.returncode, "detect_entered": count("detect_entered"), "build_entered": count("build_entered"),
          "on_error": count("on_error"), "stderr": p.stderr.decode("utf-8", "replace")[-300:]}
-    o["plan"] = classify(plan_path, pre, EXPECTED_PLAN) if not is_build else "n/a"
+    o["plan"] = classify(plan_path, pre, EXPECTED_PLANS.get(cfg["det"], EXPECTED_PLAN)) if not is_build else "n/a"
+    if not is_build and o["plan"] == "other":
+        try:
+            o["plan_doc"] = tomllib.loads(open(plan_path, "rb").read().decode())
+        except Exception:
+            o["plan_doc"] = None
     if is_build:
         o["launch"] = classify(os.path.join(root, "layers", "launch.toml"), pre, EXPECTED_LAUNCH)
         if not os.path.exists(store_path):
